@@ -29,6 +29,16 @@ def gen_c15_graph(rng):
             # plain strings that cannot be mistaken for another token kind, and integers (the result reader keeps no datatype)
             o = L("text %d" % k) if (o[3] or o[2] != XSD + 'integer') else ('L', str(k), XSD + 'integer', None)
         out.append((s, p, o))
+    # IRIs of other schemes than http(s) in object (and, typed, in subject) position: a `"type": "uri"` binding is an IRI whatever its scheme
+    subs = sorted({s for s, _, _ in out})
+    if subs and rng.random() < 0.4:
+        others = [('I', 'mailto:u%d@example.org' % rng.randint(0, 3)), ('I', 'urn:isbn:%d' % rng.randint(0, 3)), ('I', 'ftp://files.example.org/f%d' % rng.randint(0, 3))]
+        for o in rng.sample(others, rng.randint(1, 3)):
+            out.append((rng.choice(subs), EX + 'contact', o))
+        cls = sorted({o for _, p, o in out if p == RDF_TYPE and o[0] == 'I'})
+        if cls and rng.random() < 0.5:
+            out.append((others[1], RDF_TYPE, rng.choice(cls)))
+            out.append((others[1], EX + 'contact', others[0]))
     return list(dict.fromkeys(out))
 
 
